@@ -661,5 +661,12 @@ def threshold(W, name, sort='real'):
 
 
 def thresholds_consistent(W):
-    return not any(getattr(t, 'bad', False)
-                   for t in getattr(W, 'thresholds', []))
+    """replay: the threshold's model value must be consistent with all the
+    comparison answers that were replayed (otherwise the concrete run is not
+    the run the model describes)."""
+    for t in getattr(W, 'thresholds', []):
+        if getattr(t, 'bad', False):
+            return False
+        if isinstance(t, ConcThr) and not (t.lo <= t.value <= t.hi):
+            return False
+    return True
